@@ -321,10 +321,14 @@ class Rec(T.TraceRecorder):
 def run_case(case):
     """Executed in a forked child.  Returns a picklable summary."""
     runner = common.Runner("repex")
+    try:
+        T.PERM_RUNNER = common.Runner("c02")
+    except Exception:  # noqa: BLE001  (C02's model not built: fall back to the Python exact permanents)
+        T.PERM_RUNNER = None
     wd = H.scratch("infv_rx_")
     out = {"model": [], "C03": [], "C04": [], "C05": [], "stats": {"ops": 0, "treats": 0, "zero_swaps": 0, "segments": 0,
                                                                      "acc": 0, "rej": 0, "max_inflight": 0, "sort_swaps": 0,
-                                                                     "relocks": 0, "data_rows": 0}}
+                                                                     "relocks": 0, "data_rows": 0, "P_from_coq_model": 0}}
     try:
         kw = {}
         if case.get("multi_engine"):
@@ -377,6 +381,7 @@ def run_case(case):
                 else:
                     infl -= 1
                     out["stats"]["treats"] += 1
+                    out["stats"]["P_from_coq_model"] += 1 if op.get("P_from_coq_model") else 0
                     out["stats"]["sort_swaps"] += op["sort_swaps"]
                     out["stats"]["acc" if op["res"]["status"] == "ACC" else "rej"] += 1
             # files after this segment
